@@ -132,6 +132,8 @@ def gen_arg(F, ty, name):
             return [("list", ("abs", "svec", tuple(vals)))]
     if t in F.adts:
         vals = roundtrip.gen_values(F, t, name)
+        if t == "dep3::fields::Origin":
+            vals = vals + [("enum", "dep3::fields::Origin::Other", (symstr.mk([("atom", name + "a", "word"), ("lit", ", "), ("atom", name + "b", "word")]),))]
         vals = [v for v in vals if not has_unk(v)]
         if vals:
             return [(show_value(v)[:30], v) for v in vals[:6]]
@@ -333,12 +335,52 @@ run.last_key = {}
 def check_control(F, C):
     """Control::source / binaries select by Source / Package; Source::vcs passes a table name to Vcs::from_field"""
     P = "debian_control::lossless::control::"
-    for fn, key in (("Control::source", "Source"), ("Control::binaries", "Package")):
+    import itertools, rowanmodel
+    kinds = {"S": (("Source", "s"),), "B": (("Package", "p"),), "N": (("Other", "o"),)}
+
+    class SelMod(Mod):
+        def __init__(self, facts, paras):
+            super().__init__(facts)
+            self.paras = paras
+            self.rm = rowanmodel.RowanMod(facts, "deb822_lossless::lex::SyntaxKind")
+
+        def intrinsic(self, I, callee, args, st, n):
+            if callee == "deb822_lossless::lossless::Deb822::paragraphs":
+                return [(OK, ("abs", "siter", self.paras, 0), st)]
+            a0 = I.deref_val(st, args[0]) if args else None
+            if a0 is not None and a0[0] == "abs" and a0[1] == "siter" and "Iterator" in callee and callee.rsplit("::", 1)[-1] in ("find", "filter", "filter_map", "map", "nth", "last", "skip_while", "take_while", "position"):
+                if callee.endswith("::map"):
+                    return super().intrinsic(I, callee, args, st, n)
+                return rowanmodel.RowanMod.adapter(self.rm, I, st, callee.rsplit("::", 1)[-1], list(a0[2][a0[3]:]), args, n)
+            return super().intrinsic(I, callee, args, st, n)
+    for fn in ("Control::source", "Control::binaries"):
         f = F.fn(P + fn)
         if not C.ob("C15/anchor", P + fn, f is not None, "not found"):
             continue
-        lits = facts.str_lits(f["body"])
-        C.ob("C15/control-select", fn, lits == [key] or set(lits) == {key}, "selects paragraphs by %s, expected %r" % (lits, key), f["sp"])
+        for ln in range(0, 4):
+            for shape in itertools.product(["S", "B", "N"], repeat=ln):
+                paras = tuple(("abs", "para", tuple((symstr.lit(k), symstr.atom("%s%d" % (v, i), "line")) for k, v in kinds[sh])) for i, sh in enumerate(shape))
+                mod = SelMod(F, paras)
+                I = hirai.Interp(F, mod)
+                res = I.inline(f, [("struct", P + "Control", (("0", ("abs", "doc")),))], hirai.State(depth=0))
+                got = None
+                if len(res) == 1 and res[0][0] == OK:
+                    v = I.deref_val(res[0][2], res[0][1])
+                    def pidx(x):
+                        x = I.deref_val(res[0][2], x)
+                        inner = x[2][0] if x[0] == "enum" and x[2] else (dict(x[2]).get("0") if x[0] == "struct" else x)
+                        inner = I.deref_val(res[0][2], inner)
+                        return paras.index(inner) if inner in paras else "?"
+                    if fn.endswith("source"):
+                        got = pidx(v[2][0]) if v[0] == "enum" and v[1] == SOME else (None if v[0] == "enum" and v[1] == NONE else "?")
+                    elif v[0] == "abs" and v[1] == "siter":
+                        got = [pidx(x) for x in v[2][v[3]:]]
+                if fn.endswith("source"):
+                    want = next((i for i, sh in enumerate(shape) if sh == "S"), None)
+                else:
+                    want = [i for i, sh in enumerate(shape) if sh == "B"]
+                C.ob("C15/control-select", "%s on paragraphs %s" % (fn, list(shape)), got == want,
+                     "selects %s, expected %s (%s)" % (got, want, "first paragraph with a Source field" if fn.endswith("source") else "all paragraphs with a Package field, in order"), f["sp"])
     f = F.fn(P + "Source::vcs")
     if C.ob("C15/anchor", P + "Source::vcs", f is not None, "not found"):
         mod = Mod(F)
